@@ -72,6 +72,7 @@ func genFmapInner() *image {
 
 func genForSeq() *image {
 	pl := randomPlan()
+	pl.weird = false // (segments of 2^28 bytes are the business of the single-call cases)
 	if pl.nStartup == 0 && rng.Intn(3) != 0 {
 		pl.nStartup = 1 + rng.Intn(3)
 	}
@@ -181,6 +182,7 @@ type world struct {
 	digPre [][]byte
 	digID  []bool
 	stale  bool // the file was stitched: load before anything else
+	exp0   []seg // what SE[0] holds if every call so far did what the property says
 }
 
 func (w *world) algs() []uint16 {
@@ -372,10 +374,14 @@ func (w *world) nextImage() {
 	}
 }
 
+// a segment so large that hashing it means allocating and reading that much: in the object
+// as it is, or in the object as it should be (the two differ when the code under test is wrong)
 func (w *world) bigSegs() bool {
-	for _, s := range getSegs(w.b, w.ver, 0) {
-		if s.Flags&1 == 0 && s.Size > 1<<20 {
-			return true
+	for _, l := range [][]seg{getSegs(w.b, w.ver, 0), w.exp0} {
+		for _, s := range l {
+			if s.Flags&1 == 0 && s.Size > 1<<20 {
+				return true
+			}
 		}
 	}
 	return false
@@ -418,6 +424,9 @@ func (w *world) opSetSegs() {
 		s = randomSegs(w.cur, rng.Intn(4) == 0)
 	}
 	w.setSegsAt(se, s)
+	if se == 0 {
+		w.exp0 = s
+	}
 	w.log = append(w.log, fmt.Sprintf("(caller) SE[%d].IBBSegments = %v", se, s))
 	w.step(fmt.Sprintf("KSetSegs %d %s", se, segLit(s)), nil)
 }
@@ -429,6 +438,7 @@ func (w *world) opSetSegsIn() {
 		s = []seg{{uint32(w.cur.phys(w.cur.RegionBeg + 16*rng.Intn(8))), uint32(16 * (1 + rng.Intn(32))), 0}}
 	}
 	w.setSegsAt(0, s)
+	w.exp0 = s
 	w.log = append(w.log, fmt.Sprintf("(caller) SE[0].IBBSegments = %v", s))
 	w.step(fmt.Sprintf("KSetSegs 0 %s", segLit(s)), nil)
 }
@@ -488,6 +498,9 @@ func (w *world) opCreateSegs() {
 	ctx.Count(fmt.Sprintf("seq/create-segments/already-holding=%d", min(held, 3)))
 	// oracle: exactly one segment per startup entry (boot-block CBFS file) of THIS image
 	want := wantSegsOf(im, flags)
+	if se == 0 && (im.FitOK || im.IsCbfs) {
+		w.exp0 = want
+	}
 	switch {
 	case se >= w.nSE:
 		w.unspec++
@@ -652,6 +665,9 @@ func caseSequence() {
 			if k == 0 || rng.Intn(2) == 0 {
 				init[k] = randomSegs(w.cur, false)
 				w.setSegsAt(k, init[k])
+				if k == 0 {
+					w.exp0 = init[k]
+				}
 			}
 		}
 		w.log = append(w.log, fmt.Sprintf("manifest loaded with segment lists %v", init))
